@@ -15,9 +15,13 @@ pub fn all_names() -> Vec<&'static str> {
     ]
 }
 
-pub fn build(name: &str, level: u8) -> Option<Scenario> {
+pub fn build(full_name: &str, level: u8) -> Option<Scenario> {
     let l = level;
     let mut s;
+    // "-live": election timeouts range over n values so that the shortest one rotates with
+    // the term (needed by the C10 suffix); otherwise identical to the base scenario
+    let live = full_name.ends_with("-live");
+    let name = full_name.trim_end_matches("-live");
     match name {
         // ------------------------------------------------------------ ELECT
         "elect" | "elect-pv" | "elect-cq" | "elect-pvcq" | "elect-prio" => {
@@ -139,6 +143,7 @@ pub fn build(name: &str, level: u8) -> Option<Scenario> {
             s.crashable = vec![1];
             s.tickable = vec![1];
             let (mt, to, ticks, props, cuts, crashes, lazy, dups) = match l {
+                0 => (3, 2, 0, 0, 0, 0, 2, 0),
                 1 => (4, 2, 0, 1, 0, 0, 2, 0),
                 2 => (4, 3, 0, 1, 1, 0, 2, 0),
                 3 => (5, 3, 2, 1, 1, 1, 3, 1),
@@ -264,6 +269,7 @@ pub fn build(name: &str, level: u8) -> Option<Scenario> {
                 raft::eraftpb::MessageType::MsgHeartbeatResponse as u8,
             ];
             let (props, beats, reorders, dups, drops, cuts, mi, lazy, setcaps, unreach) = match l {
+                0 => (2, 1, 0, 0, 0, 0, 5, 1, 0, 0),
                 1 => (2, 1, 1, 0, 0, 0, 5, 1, 0, 0),
                 2 => (2, 1, 1, 1, 1, 0, 5, 1, 1, 0),
                 3 => (3, 2, 1, 1, 1, 1, 6, 2, 1, 1),
@@ -333,8 +339,12 @@ pub fn build(name: &str, level: u8) -> Option<Scenario> {
             }
             s.crashable = vec![1, 2];
             s.transfer_targets = vec![2, 4];
+            if l == 0 {
+                s.clients_at = vec![1];
+            }
             let (ccs, props, to, crashes, mt, mi, xf, lazy) = match l {
                 1 if n.contains("-rm1") => (1, 1, 0, 0, 2, 6, 0, 1),
+                0 => (1, 0, 0, 0, 2, 5, 0, 1),
                 1 => (1, 0, 0, 0, 2, 5, 0, 1),
                 2 => (1, 1, 1, 0, 3, 6, 0, 1),
                 3 => (2, 0, 1, 0, 3, 6, 0, 1),
@@ -392,6 +402,7 @@ pub fn build(name: &str, level: u8) -> Option<Scenario> {
             s.timeoutable = vec![3];
             s.fault_types = vec![raft::eraftpb::MessageType::MsgSnapshot as u8, raft::eraftpb::MessageType::MsgAppendResponse as u8];
             let (compacts, props, dups, drops, reorders, snapfail, reqsnaps, cuts, to, beats, mi) = match l {
+                0 => (0, 0, 0, 0, 0, 1, 0, 0, 0, 1, 6),
                 1 => (0, 1, 0, 0, 0, 1, 0, 0, 0, 2, 6),
                 2 => (1, 1, 1, 1, 0, 1, 0, 0, 0, 2, 6),
                 3 => (1, 1, 1, 1, 1, 1, 1, 1, 0, 2, 6),
@@ -482,6 +493,7 @@ pub fn build(name: &str, level: u8) -> Option<Scenario> {
             s.transfer_targets = vec![1, 2, 3, 4, 9];
             s.cc_menu = vec![CcSpec::V1(1, 3)];
             let (xf, props, beats, drops, dups, ccs, mt) = match l {
+                0 => (1, 0, 0, 0, 0, 0, 3),
                 1 => (1, 1, 0, 0, 0, 0, 3),
                 2 => (2, 1, 3, 0, 0, 0, 3),
                 3 => (2, 1, 4, 1, 0, 0, 3),
@@ -499,9 +511,53 @@ pub fn build(name: &str, level: u8) -> Option<Scenario> {
                 c.ccs = ccs;
             });
         }
+        // ------------------------------------------------------------ LEASE
+        // pre_vote + check_quorum everywhere; leader 1 and a majority in lock-step; the
+        // remaining nodes do whatever they like
+        n if n.starts_with("lease") => {
+            let nn = if n.contains("5") { 5 } else { 3 };
+            s = Scenario::new(name, nn);
+            for nd in s.nodes.iter_mut() {
+                nd.pre_vote = true;
+                nd.check_quorum = true;
+                nd.heartbeat_tick = if n.contains("-hb2") { 2 } else { 1 };
+            }
+            s.prefix = vec![Action::Timeout(1), Action::Settle];
+            s.lock_majority = if nn == 5 { vec![1, 2, 3] } else { vec![1, 2] };
+            let minority: Vec<u8> = if nn == 5 { vec![4, 5] } else { vec![3] };
+            s.timeoutable = minority.clone();
+            s.tickable = minority.clone();
+            s.crashable = minority.clone();
+            s.clients_at = vec![];
+            let (rounds, to, ticks_extra, crashes, dups, drops, mt) = match l {
+                0 => (3, 1, 0, 0, 0, 0, 3),
+                1 => (4, 2, 0, 0, 0, 0, 4),
+                2 => (6, 2, 0, 1, 1, 0, 4),
+                3 => (7, 3, 0, 1, 1, 1, 5),
+                4 => (9, 3, 0, 1, 2, 1, 6),
+                _ => (12, 4, 0, 2, 2, 2, 7),
+            };
+            let _ = ticks_extra;
+            s.max_term = mt;
+            s.max_index = 6;
+            s.tickable = vec![];
+            s.caps = caps(|c| {
+                c.ticks = rounds;
+                c.timeouts = to;
+                c.crashes = crashes;
+                c.dups = dups;
+                c.drops = drops;
+            });
+        }
         _ => return None,
     }
-    s.name = format!("{}/L{}", name, level);
+    if live {
+        let n = s.nodes.len();
+        for nd in s.nodes.iter_mut() {
+            nd.max_election_tick = nd.min_election_tick + n;
+        }
+    }
+    s.name = format!("{}/L{}", full_name, level);
     Some(s)
 }
 
